@@ -518,17 +518,23 @@ fn create_doc_for_block(
     segments.push(statement_to_document(heap, comment_store, stmt));
     segments.push(Document::LineHard);
   }
-  if let Some(comments) = associated_comments_doc(
+  let ending_comments_doc = associated_comments_doc(
     heap,
     comment_store,
     vec![block.ending_associated_comments],
     DocumentGrouping::Expanded,
     false,
-  ) {
+  );
+  let mut final_expr_doc = block.expression.as_ref().map(|e| create_doc(heap, comment_store, e));
+  if let Some(comments) = ending_comments_doc {
+    // The ending comments sit between the last statement / final expression and the closing brace.
+    if let Some(d) = final_expr_doc.take() {
+      segments.push(d);
+      segments.push(Document::LineHard);
+    }
     segments.push(comments);
     segments.push(Document::LineHard);
   }
-  let final_expr_doc = block.expression.as_ref().map(|e| create_doc(heap, comment_store, e));
   if segments.is_empty() {
     if force_expanded {
       Document::concat(vec![
